@@ -32,18 +32,17 @@ Proof.
   { induction cs; intros s H; cbn; [reflexivity|]. unfold send_data at 2. rewrite H. auto. }
   assert (Hfe : forall t cs s, lclosed s = true -> fold_left (send_ext t) cs s = s).
   { induction cs; intros s H; cbn; [reflexivity|]. unfold send_ext at 2. rewrite H. auto. }
+  assert (Hend : forall (c : bool) T s0, lclosed T = true -> xbytes (log T) = xbytes (log s0) ->
+            lclosed (if c then lose T else T) = true /\ xbytes (log (if c then lose T else T)) = xbytes (log s0)).
+  { intros c T s0 HT HX. destruct c; [|auto]. destruct (Hl T HT) as [A B]. split; [exact A|]. rewrite B. exact HX. }
   assert (Hw : forall s d, lclosed s = true -> lclosed (write rmp s d) = true /\ xbytes (log (write rmp s d)) = xbytes (log s)).
   { intros s d H. unfold write. destruct (buf s); [|cbn; auto].
-    destruct (rwl s <? len d); rewrite Hfd by (cbn; exact H).
-    - destruct (_ && _); [destruct (Hl (set_rwl (rwl (emit CbStop (set_writing false (set_buf (drop (rwl s) d) s))) - len (take (rwl s) d)) (emit CbStop (set_writing false (set_buf (drop (rwl s) d) s)))) H) as [A B]; split; [exact A|rewrite B]|split; [exact H|]];
-        cbn; rewrite xbytes_app, app_nil_r; reflexivity.
-    - destruct (_ && _); [apply (Hl (set_rwl (rwl s - len d) s) H)|cbn; auto]. }
+    rewrite Hfd by (destruct (rwl s <? len d); cbn; exact H).
+    apply Hend; destruct (rwl s <? len d); cbn; rewrite ?xbytes_app, ?app_nil_r; auto. }
   assert (Hx : forall s t d, lclosed s = true -> lclosed (write_ext rmp s t d) = true /\ xbytes (log (write_ext rmp s t d)) = xbytes (log s)).
   { intros s t d H. unfold write_ext. destruct (ext s); [|cbn; auto].
-    destruct (rwl s <? len d); rewrite Hfe by (cbn; exact H).
-    - destruct (closing _); [destruct (Hl (set_rwl (rwl (emit CbStop (set_writing false (set_ext [(t, drop (rwl s) d)] s))) - len (take (rwl s) d)) (emit CbStop (set_writing false (set_ext [(t, drop (rwl s) d)] s)))) H) as [A B]; split; [exact A|rewrite B]|split; [exact H|]];
-        cbn; rewrite xbytes_app, app_nil_r; reflexivity.
-    - destruct (closing _); [apply (Hl (set_rwl (rwl s - len d) s) H)|cbn; auto]. }
+    rewrite Hfe by (destruct (rwl s <? len d); cbn; exact H).
+    apply Hend; destruct (rwl s <? len d); cbn; rewrite ?xbytes_app, ?app_nil_r; auto. }
   assert (Hxa : forall es s, lclosed s = true -> lclosed (write_ext_all rmp s es) = true /\ xbytes (log (write_ext_all rmp s es)) = xbytes (log s)).
   { induction es as [|[t d] r IH]; intros s H; [cbn; auto|]. cbn [write_ext_all fold_left fst snd].
     destruct (Hx s t d H) as [A B]. destruct (IH _ A) as [C D]. split; [exact C|]. unfold write_ext_all in D. rewrite D, B. reflexivity. }
